@@ -2,6 +2,8 @@
 pairing, K6 lookup order / exact type (engine half)."""
 from __future__ import annotations
 
+import re
+
 from ..engine import rule
 from ..cxx_ir import CALL_KINDS, CTOR_KINDS
 from ..cfg import cfg_of
@@ -505,3 +507,41 @@ def ns1(ctx):
                           'dict-order mode consulted are those of another namespace'
                           % (inst(g), t.name, arg.text(5), why), c.loc)
     ctx.analysed['namespace_call_sites'] = sites
+    # the same for everything else a recursive step receives by reference (output vectors, the
+    # path stack, the leaf predicate): the recursive call hands on exactly what it was given
+    rec_sites = 0
+    for g in live_funcs(prog):
+        if g.body is None or not g.file or g.is_lambda or g.record != 'optree::PyTreeSpec':
+            continue
+        fam = [g]
+        stack = [g]
+        while stack:
+            for l in prog.lambdas_of(stack.pop()):
+                fam.append(l)
+                stack.append(l)
+        for h in fam:
+            if h.body is None:
+                continue
+            for c in h.body.walk():
+                if c.kind not in CALL_KINDS:
+                    continue
+                t = callee_func(prog, h, c)
+                if t is None or t.name != g.name or t.record != g.record or len(t.params) != len(g.params):
+                    continue
+                a = c.call_args()
+                bad = []
+                for (pn, pt), x in zip([p_[:2] for p_ in g.params], a):
+                    if not pn or x is None or not (pt or '').rstrip().endswith('&') or 'handle' in pt or \
+                            re.search(r'\b(ssize_t|size_t|int|bool|long)\b', pt):
+                        continue     # the cursor, the depth: these change by design (N2, K8)
+                    if member_path(strip_casts(x)) != pn:
+                        bad.append('%s <- %s' % (pn, x.text(4)))
+                rec_sites += 1
+                ctx.check('%s/recursion-hands-on-its-references' % short(g), not bad,
+                          '%s: the recursive call passes every by-reference parameter (outputs, stack, '
+                          'predicate, namespace) on unchanged' % inst(g),
+                          '%s: the recursive call replaces a by-reference parameter (%s): the subtree is '
+                          'traversed with other options / into other outputs than the root'
+                          % (inst(g), '; '.join(bad)), c.loc)
+    ctx.require(rec_sites >= 5, 'only %d self-recursive engine calls found' % rec_sites)
+    ctx.analysed['recursive_call_sites'] = rec_sites
